@@ -5,6 +5,7 @@ from engine.astutil import U, calls, kwargs, single_defs, inline, walk_own, call
 from engine.cfg import CFG
 from engine.norm import Norm, parse_expr
 from engine.repo import AnalysisError
+from . import common
 
 EXPLANATION = (
     "Structural part of C16, decided on KPerSamplePlatePolicy.filter_eligible_plates and its call site: (R1) the "
@@ -21,8 +22,9 @@ RULES = {
     "R3": "thresholds: remaining < k (insufficient), selected < k (in progress); per-plate counters; arm conditions",
     "R4": "select_next_plate: policy consulted unless `policy is None`; receives batch plates and the candidate list",
     "R5": "the winner is looked up among the allowed ids: ids[mask][scores[mask].argmin()] with mask = isin(ids, allowed)",
+    "R6": "the derived screen attributes this property's code relies on (is_observed, n_unique_samples, unique_sample_ids) have their documented definitions in ScreenBase and every override",
 }
-MIN = {"R1": 1, "R2": 1, "R3": 7, "R4": 2, "R5": 2}
+MIN = {"R1": 1, "R2": 1, "R3": 7, "R4": 2, "R5": 2, "R6": 3}
 TRUSTED = ["python dict/defaultdict semantics", "Plate.sample_ids[0] is the plate's sample once R1 holds"]
 TECHNIQUE = "guard dominance on the CFG, counter-idiom recognition, integer relational normal forms of the thresholds"
 LEVEL_TEXT = ("Decides the filter's one-step contract (who may be returned, under which integer thresholds) for all k and "
@@ -402,7 +404,11 @@ def r5(ctx):
     ctx.borrow(C06.min_lookup, "R5")
 
 
-RULE_FUNCS = [r1, r2, r3, r3_deviant, r4, r5]
+def r_derived(ctx):
+    common.derived_attributes(ctx, "R6", ['is_observed', 'n_unique_samples', 'unique_sample_ids'])
+
+
+RULE_FUNCS = [r1, r2, r3, r3_deviant, r4, r5, r_derived]
 
 
 def run(ctx):
